@@ -2,6 +2,7 @@
 field of each entry (C01-R3, C03-R2, C09-R2, C10-R1/R3, C11-R1/R3)."""
 from __future__ import annotations
 
+import re
 from typing import Any, Dict, List, Optional, Tuple
 
 from ..absint import NONE, SELF, Outcome, const, glob, is_const, show
@@ -102,11 +103,24 @@ def rule_doc_storage(rep: Report, repo: Repo, rule: str) -> None:
                 rep.check(got == DOC, rule, WHERE + ".process_" + k, f"{cls}.doc = {pretty(got)}"[:100],
                           f"the entry's documentation is `{pretty(got)}` instead of the cleaned doccomment text: the doc text is "
                           f"lost, altered or belongs to something else", witness=f"#[[[\\n# text\\n#]]\\n{k}(...)")
+    # a documented command that the protocol says is shown must actually store its doc text somewhere
+    from .protocol import expected, row_case
+    for k in lm.kinds():
+        if k in ("endfunction", "endmacro", "cpp_end_class", "cmake_parse_arguments"):
+            continue
+        for r in good_rows(lm, "DOC", k):
+            exp = expected(r)
+            if not isinstance(exp, dict) or "__problem__" in exp:
+                continue
+            if (exp["entries"] or exp["attach"]) and not entry_objects(lm, r):
+                rep.bad(rule, WHERE + ".process_" + k, f"DOC {k} [{r.cond()[:80]}]: no entry receives the doc text (does {r.summary()})",
+                        f"the doccomment of a {k}() is dropped: no entry or class member is created that carries its text",
+                        witness=f"#[[[\n# text\n#]]\n{k}(...)")
     # module doccomment
     for r in lm.rows("MODULE", "-"):
         for cls, fields in entry_objects(lm, r):
             rep.check(cls == "ModuleDocumentation", rule, WHERE + ".enterDocumented_module", f"{cls}", "module doccomment creates another entry kind")
-    rep.floor(rule, 12, "constructor sites")
+    rep.floor(rule, 10, "constructor sites")
 
 
 def _mentions_args(t) -> bool:
@@ -162,7 +176,7 @@ def rule_signature_bindings(rep: Report, repo: Repo, rule: str) -> None:
     """C03-R2."""
     rep.rule(rule, "function/macro: name = first argument (never regex-stripped), params = remaining arguments in order, each "
                    "passed through re.sub(<kind's strip pattern>, '', text); has_kwargs = trigger string in doc")
-    lm = model(repo)
+    lm = model(repo, upper=True)     # FUNCTION(...) / Macro(...) are the same definitions
     for k, cls, regex in (("function", "FunctionDocumentation", "function_parameter_name_strip_regex"),
                           ("macro", "MacroDocumentation", "macro_parameter_name_strip_regex")):
         for ev in ("DOC", "UNDOC"):
@@ -563,3 +577,37 @@ def _compares_value(c, elem_names=()) -> bool:
             if isinstance(s, tuple) and s and s[0] == "call" and s[1][0] == "attr" and s[1][1] == IT:
                 return True
     return False
+
+
+def rule_generic_binding(rep: Report, repo: Repo, rule: str) -> None:
+    """C02-R6: a documented command without processor shows its name and its arguments as written and in order."""
+    rep.rule(rule, "generic entries: name = the (case-folded) command name, params = the texts of the command's arguments, "
+                   "unmodified, in list order (single arguments followed by parenthesised ones, or merged by source position "
+                   "(line, column) / token index)")
+    lm = model(repo)
+    from ..listener import OTHER
+    n = 0
+    for r in good_rows(lm, "DOC", OTHER):
+        nf = nf_for(lm, r)
+        for cls, f in entry_objects(lm, r):
+            n += 1
+            rep.check(cls == "GenericCommandDocumentation", rule, WHERE + ".process_generic_command", f"creates {cls}", "a generic command creates another entry kind")
+            name = f["name"]
+            rep.check(name == const(OTHER), rule, WHERE + ".process_generic_command", f"name = {show(name)[:50]}",
+                      "the generic entry is not named after the command")
+            got = nf.nf(f["params"])
+            both = ("concat", A, ("cargs",))
+            ok = got == ("map", ("text", IT), both)
+            why = f"generic arguments are `{pretty(got)[:90]}`"
+            if not ok and got[0] == "map" and got[1] == ("text", IT):
+                src = got[2]
+                if src[0] == "call" and src[1] == ("global", "sorted") and src[2] and src[2][0] == both:
+                    key = dict(src[3]).get("key")
+                    ktxt = show(key) if key else ""
+                    # accepted keys: (line, column) in that order, tokenIndex, start index
+                    ok = bool(re.search(r"start\.line, \w+\.start\.column\)|start\.tokenIndex|getSourceInterval\(\)\[0\]|start\.start\b", ktxt))
+                    why = f"arguments are sorted by `{ktxt[:70]}`, which is not their source order"
+            rep.check(ok, rule, WHERE + ".process_generic_command", f"params = {pretty(got)[:100]}",
+                      why + ": the entry does not show the arguments as written and in order",
+                      witness="target_sources(mylib\n  PRIVATE src/a.cpp\n  PUBLIC include/mylib.h)")
+    rep.floor(rule, 2, "generic bindings")
